@@ -113,6 +113,8 @@ def main():
                 meta["ran"].append(f"git -C /repo apply patch.diff && ./check {c} {tier}  -> exit {rc}")
         finally:
             sh("git checkout -- .", "/repo")
+            # evidence written while the change was applied is not evidence about the unchanged tree
+            sh("git checkout -- evidence", "/verif")
         meta["checks"] = results
         meta["detected_by"] = [c for c, r in results.items() if r["exit"] == 1]
     out_dir = f"/verif/seeded/{pid}-{n}"
